@@ -417,7 +417,11 @@ fn expect_reject(ctx: &mut Ctx, w: &World, variant: &str, kind: Kind, der_bytes:
     ctx.eval();
     ctx.sig(&format!("tamper {} {:?}", variant, kind));
     ctx.obs(&format!("tamper_{}", variant), 1);
-    if let Some(Outcome::Accepted(_)) = validate(ctx, w, kind, der_bytes, issuer, strict, now) {
+    let out = validate(ctx, w, kind, der_bytes, issuer, strict, now);
+    if let Some(Outcome::Rejected(e)) = &out {
+        ctx.sample(&format!("tamper-{}", variant), || json!({"variant": variant, "kind": format!("{:?}", kind), "now": now, "observed": format!("rejected: {}", e)}));
+    }
+    if let Some(Outcome::Accepted(_)) = out {
         ctx.violation(
             &format!("C01:accepts:{}:{}", variant, format!("{:?}", kind).to_lowercase()),
             &format!("a certificate with a single non-conforming input ({}) was accepted", variant),
@@ -547,6 +551,15 @@ fn run_chain(ctx: &mut Ctx, w: &World, rng: &mut Rng, chain_no: u64) {
         ctx.eval();
         ctx.sig(&format!("{:?} depth={} {:?} claims={} expect={}", kind, node.depth + 1, overclaim, tags, if want.is_some() { "accept" } else { "reject" }));
         let outcome = validate(ctx, w, kind, &d, Some(&node.rc), strict, now);
+        {
+            let observed = match &outcome {
+                Some(Outcome::Accepted(_)) => "accepted".to_string(),
+                Some(Outcome::Rejected(e)) => format!("rejected: {}", e),
+                None => "panic".to_string(),
+            };
+            let key = if want.is_some() { "link-expected-accept" } else { "link-expected-reject" };
+            ctx.sample(key, || json!({"case": detail, "observed": observed}));
+        }
         let rc = match (outcome, &want) {
             (Some(Outcome::Accepted(rc)), Some(eff)) => {
                 ctx.obs("accepted", 1);
@@ -706,5 +719,4 @@ pub fn run(ctx: &mut Ctx) {
         run_chain(ctx, &w, &mut rng, i);
     }
     ctx.obs("signatures_made", pool.signatures.get());
-    ctx.sample("chain", || json!({"note": "see signature_examples for the (kind, depth, policy, claims, expectation) classes explored"}));
 }
